@@ -1,19 +1,24 @@
 """C11 -- queries are pure: no input mutation, no order dependence, deterministic.
 
 Case kinds (input["op"]):
-  hist   a random history of constructions / cached reads / plain queries / derivations (arithmetic, slicing, copy,
-         trimming, Imaging(data=...), MapperValued, the two inversion factories) on REAL objects.  After every step every
-         caller-owned input, every object's array and every modelled cached value is fingerprinted; the names whose
-         contents changed are reported with their new contents; every read is paired with the same quantity computed on
-         a freshly built, never-read twin (the table `qf`).  Coq replays the history on the heap machine (model) and on
-         the value semantics (spec) and compares observations, changed names (also against the write set of each step's
-         effect summary) and the final contents of everything.
-  inv    random reads of curvature_matrix / curvature_reg_matrix / the preloaded curvature matrix on a real inversion
-         (single regularization: in-place += into the cached matrix) -> KInv, values as IEEE bit patterns.
-  graph  random access orders over the public quantities of an object graph (inversion -> mappers -> dataset -> grids),
-         every observation compared bit for bit with a never-read twin, all caller-owned inputs, preloads, settings and
-         default-argument singletons fingerprinted (Python-only relation: py_ok).
-  seed   SimulatorImaging(noise_seed=k).via_image_from / preprocess noise helpers under perturbed global RNG states -> KSeed.
+  hist     a random history of constructions (incl. Kernel2D(normalize=True), psf.normalized, x.native, x.slim) / cached reads / plain
+           queries / derivations (arithmetic, slicing, copy, trimming, Imaging(data=...), MapperValued, the two inversion factories) on REAL
+           objects.  After every step every caller-owned input, every object's array and every modelled cached value is fingerprinted; the
+           names whose contents changed are reported with their new contents; every read is paired with the same quantity computed on a
+           freshly built, never-read twin (the table `qf`).  Coq replays the history on the heap machine (model) and on the value semantics
+           (spec) and compares observations, changed names (also against the write set of each step's effect summary) and the final
+           contents of everything.  -> KA (KHist ..)
+  gcase    random reads on the real object graph of one of the quantity graphs of coq/Model/C11g.v (Delaunay / Voronoi mesh + mapper +
+           valued mapper; FitImaging -> Imaging -> inversion; derivation chains; Interferometer -> inversion): value (vs twin), set of
+           cached_property entries present in the instance __dict__s, entries whose bytes changed -> KGraph, evaluated in Coq against the
+           memoising machine (model) and the pure node values (spec).
+  inv      random reads of curvature_matrix / curvature_reg_matrix / the preloads on a real inversion -> KA (KInv ..).
+  graph / fit / mesh / reuse   random access orders (each second case: every quantity after every other one) over the public quantities of
+           an object graph, every observation compared bit for bit with a never-read twin built from unshared parts, all caller-owned
+           inputs, preloads, settings and default-argument singletons fingerprinted (Python-only relations: py_ok).
+  edit     read -> the user assigns into the object -> re-read, vs a fresh object holding the edited contents (py_ok).
+  dsderive dataset derivations with vs without prior reads on the source (py_ok).
+  seed     seeded simulations under perturbed global RNG states -> KA (KSeed ..); the images / kernels handed over are fingerprinted.
 """
 import sys, types, zlib, itertools, hashlib
 if "pylops" not in sys.modules:          # stand-in (pylops is not installed): lets Interferometer / TransformerDFT be built
@@ -60,17 +65,23 @@ COQ_FALLBACK = ("Model.C11c", "spec_ok")
 COQ_IMPORTS = ""
 SHARD = 60
 RULE = ("random histories (length <= 26) over Array2D / Grid2D / VectorYX2D / Kernel2D / Visibilities / Mask2D / Imaging / "
-        "MapperRectangular / MapperValued / SettingsInversion objects plus a fixed corpus of the witness histories of D7-D12, "
-        "D19; random read orders on inversions and object graphs; seeded simulations under perturbed RNG states. "
-        "A case is non-trivial if it contains at least one read after a derivation or a repeated read; distinct = distinct JSON input.")
+        "MapperRectangular / MapperValued / SettingsInversion objects plus a fixed corpus of the witness histories of D7-D12, D19 and of the "
+        "in-place kernel normalisation; random reads on the five quantity graphs of Model/C11g.v; random read orders (with sweeps) on "
+        "inversions, fits, meshes and on inversions sharing parts; user edits; dataset derivations; seeded simulations under perturbed "
+        "RNG states. A case is non-trivial if it contains at least one read after a derivation or a repeated read; distinct = distinct JSON input.")
 EXHAUSTIVE = {}
 TRUSTED = ["hand-written heap/effect model coq/Model/C11.v (tied to /repo by this run: observations, changed names vs effect "
            "summaries and final contents are compared inside Coq)",
+           "hand-written quantity graphs coq/Model/C11g.v (tied to /repo by this run: values, cache fills and changed entries after every "
+           "read are compared inside Coq)",
            "harness/c11.py: twin construction (same constructor, same contents, never read), value encoding (integral floats "
            "as integers, others as IEEE-754 bit patterns), fingerprints (crc32 of bytes + shape + dtype)",
            "Python reference semantics of attributes / __dict__ / numpy views (modelled, not verified)"]
 ASSUMPTIONS = ["pylops is absent: a stand-in module (LinearOperator = object) is installed before importing autoarray so that "
                "Interferometer datasets can be built; numba absent",
+               "the optional C natural-neighbour library behind autoarray.util.nn.nn_py is not built: a deterministic stand-in (3 nearest "
+               "mesh points, inverse-distance weights, same signatures / shapes) is installed so that MapperVoronoi.mapping_matrix and "
+               "MapperValued.magnification_via_mesh_from on a Voronoi mesh can be evaluated",
                "object attributes other than the array (pixel_scales = 1.0, origin (0,0), over_sampling sub_size 2 / 1, psf, noise "
                "level) are fixed per kind; quantity values are opaque to the model (table qf measured on never-read twins)",
                "Visibilities(visibilities=ndarray) stores the caller's ndarray itself (no copy); the model allocates a copy -- "
@@ -164,9 +175,14 @@ GEOM = {"ps": 1.0, "origin": (0.0, 0.0)}     # pixel scales / origin of every ma
 def _mask(aa, m): return aa.Mask2D(mask=np.array(m, dtype=bool), pixel_scales=GEOM["ps"], origin=GEOM["origin"])
 
 def view_grids(g):
+    """the four grids of a GridsDataset / GridsInterface: coordinates, and the over-sampling each grid carries (its sub-size)"""
     out = []
     for n in ("uniform", "non_uniform", "pixelization", "blurring"):
-        try: out += enc_val(getattr(g, n))
+        try:
+            x = getattr(g, n)
+            out += enc_val(x)
+            sub = getattr(getattr(x, "over_sampling", None), "sub_size", None)
+            out += [NAN + 10] + (enc_val(sub) if sub is not None else [NAN + 3])
         except Exception as e: out += exc_code(e)
     return out
 def view_convolver(c):
@@ -1914,5 +1930,7 @@ def gen_inputs(tier, rng):
 def extra_evidence():
     return {"distribution": dict(sorted(TALLY.items())),"modelled_operations": ["ONew", "OConstruct(Array2D|Grid2D|VectorYX2D|Kernel2D|Visibilities|Mask2D|MapperRectangular)", "OAlias(Imaging)",
                                     "OArith", "OSlice", "OCopy", "OTrim", "ORead(cached_property)", "OPlain", "OPeekIn", "OPeekObj",
-                                    "OValued(MapperValued)", "OValuesMasked", "OMapRecon", "OInterf", "OImaging"],
+                                    "OValued(MapperValued)", "OValuesMasked", "OMapRecon", "OInterf", "OImaging",
+                                    "OConstruct(.., Some q) = Kernel2D(normalize=True) / psf.normalized", "OConstruct(SObj) = x.native / x.slim"],
+            "graphs": {str(k): {"name": v, "nodes": [f"{o}.{n}:{kd}" for o, n, kd in GNODES[v]]} for k, v in GINST.items()},
             "quantities": {k: {"cached": sorted(v.cached), "plain": v.plain} for k, v in KINDS.items()}}
